@@ -686,6 +686,17 @@ func ruleObservationalCollapse(c *Check, rule string) {
 							}
 						case *ssa.Convert:
 							pos++ // int(di): range decided by R03.6
+						case *ssa.Call:
+							// the body of the decoder moved into a function of its own: its results are the decoder's
+							if t := staticCallee(x); t != nil && inModule(t) && t.Pkg == d.Pkg && len(t.Blocks) > 0 && t != d {
+								allInstrs(t, func(j ssa.Instruction) {
+									if rr, isRR := j.(*ssa.Return); isRR && len(rr.Results) == 1 {
+										chk(rr.Results[0])
+									}
+								})
+							} else {
+								okR = false
+							}
 						default:
 							okR = false
 						}
